@@ -124,10 +124,13 @@ def _shard(shard, nshards, payload):
     depth = payload['depth']
     idx = 0
     replayed = 0
-    for d in range(1, depth + 1):
-        for hist in itertools.product(ops, repeat=d):
+    seeds = [(), (('define', 'A', 'def'), ('newproc',)), (('define', 'A2', 'noann'), ('newproc',), ('define', 'A2', 'noann'), ('newproc',))]
+    for d, pre, tail in [(d, pre, tail) for pre in seeds for d in range(1, depth + 1) for tail in itertools.product(ops, repeat=d)]:
+        for hist in (pre + tail,):
             if hist[-1][0] != 'define':
                 continue        # nothing is observed after the last definition
+            if pre and d < depth:
+                continue        # the seeded passes only add the longest histories
             idx += 1
             if idx % nshards != shard:
                 continue
@@ -220,7 +223,7 @@ def run(tier):
         'distinct_nontrivial': st.count('states'), 'programs': len(alphabet(tier)) - len(CTRL),
         'real_process_replays': st.n.get('real_replays', 0), 'definitions_checked': st.n.get('definitions', 0),
         'real_process_histories_with_mixed_optimisation_levels': st.n.get('real_histories', 0), 'real_definitions': st.n.get('real_definitions', 0),
-        'rule': 'all histories of length <=%d ending in a definition over %d operations (define x %d declaration/option pairs incl. two declarations whose '
+        'rule': 'all histories of length <=%d (also started from a cache directory that earlier processes filled for A resp. A2 with bytecode) ending in a definition over %d operations (define x %d declaration/option pairs incl. two declarations whose '
                 'generated source has the same length, new process, clock tick, bytecode toggle, forget sources) on real files with harness time stamps '
                 '(everything within one second unless a tick occurs); every definition and every class still alive in the process checked on a battery '
                 'against its own declaration; transitions = interposed file-system steps; states = distinct final (directory contents+mtimes, clock)' % (
